@@ -237,6 +237,14 @@ func c01Corrupt(c *core.Case, id c01Identity) (c01Identity, string) {
 		x.pub = append(x.pub, c.Bytes("key.ext", c.Int("key.extn", 1, 32))...)
 		return x, "key-extended"
 	case 11:
+		if id.easing > 0 && c.Bool("easing.flip") {
+			// one bit of the 64-bit easing value, also in its upper bytes
+			x.easing = id.easing ^ (1 << uint(c.Uniform("easing.bit", 0, 63)))
+			if x.easing == 0 {
+				x.easing = id.easing + 1
+			}
+			return x, "easing-bit-flip"
+		}
 		x.easing = id.easing + uint64(c.Int("easing.delta", 1, 1000))
 		return x, "easing-changed"
 	default:
@@ -471,7 +479,17 @@ func TestC01Network(t *testing.T) {
 			data := append([]byte(nil), d...)
 			fr.ReturnToPool()
 			ctx := c08Context(data)
-			inner := router.AnnouncePingAttachment{Router: id.public(), Delay: 3, ForwardLabel: 11, ReturnLabel: 12}
+			// Optionally a further honest record below the one under test (chain
+			// P > X' > Q), signed by a router V has not met.
+			var below []byte
+			if c.Bool("hop.third-layer") {
+				q := pool[3]
+				third := router.AnnouncePingAttachment{Router: q.Addr.PublicAddress, Delay: 2, ForwardLabel: 21, ReturnLabel: 22}
+				traw, _ := cbor.Marshal(third)
+				tsig, _ := q.Addr.SignWithContext(traw, ctx)
+				below = append(traw, tsig...)
+			}
+			inner := router.AnnouncePingAttachment{Router: id.public(), Delay: 3, ForwardLabel: 11, ReturnLabel: 12, NextAttachment: below}
 			raw, err := cbor.Marshal(inner)
 			if err != nil {
 				return
@@ -568,6 +586,19 @@ func TestC01Network(t *testing.T) {
 		}
 		if mustAccept && !accepted {
 			c.Fatalf("valid identity %s (%s) was not accepted at the %s entry point", id, what, entry)
+		}
+		// Whatever record and session now exist for the address bind it to exactly
+		// the identity that was presented (or, for a known router, the genuine one).
+		if s := V.St.GetSession(id.ip); s != nil && pred {
+			a := s.Address()
+			if a.IP != id.ip || !bytes.Equal(a.PublicKey, valid.pub) && !bytes.Equal(a.PublicKey, id.pub) {
+				c.Fatalf("after %s was presented at the %s entry point the session for %s holds address %s with key %x", what, entry, id.ip, a.IP, []byte(a.PublicKey))
+			}
+		}
+		if sr, err := V.Store.GetRouter(id.ip); err == nil && sr != nil && sr.Address != nil && pred {
+			if sr.Address.IP != id.ip || !bytes.Equal(sr.Address.PublicKey, valid.pub) && !bytes.Equal(sr.Address.PublicKey, id.pub) {
+				c.Fatalf("after %s was presented at the %s entry point the stored record for %s holds address %s with key %x", what, entry, id.ip, sr.Address.IP, []byte(sr.Address.PublicKey))
+			}
 		}
 		c.Eval(fmt.Sprintf("net|%s|%s|%s|%v", entry, what, id.hash, pred), what != "valid" && !pred, func() any {
 			return map[string]any{"entry": entry, "case": what, "identity": id.String(), "predicate": pred, "accepted": accepted}
